@@ -1,0 +1,24 @@
+// SPDX-FileCopyrightText: 2026 The Pion community <https://pion.ly>
+// SPDX-License-Identifier: MIT
+
+//go:build verif
+
+package pacing
+
+import "time"
+
+type c12Pacer struct{ budget float64 }
+
+func (p *c12Pacer) SetRate(_, _ int)           {}
+func (p *c12Pacer) Budget(time.Time) float64   { return p.budget }
+func (p *c12Pacer) AllowN(time.Time, int) bool { return true }
+
+// C12FixedBudget installs a limiter whose budget is constant: 0 never
+// releases a packet, a huge value releases every queued packet at the next
+// tick (property C12: queue growth). Only compiled with the "verif" build tag.
+func C12FixedBudget(budget float64) Option {
+	return setPacerFactory(func(_, _ int) pacer { return &c12Pacer{budget: budget} })
+}
+
+// C12ChannelLen returns the number of packets waiting in the hand-off channel.
+func C12ChannelLen(i *Interceptor) int { return len(i.queue) }
